@@ -139,6 +139,34 @@ func C13(c *fw.Ctx) {
 			oneOutcome(c, model.Render(parenAll(prog2)), "", "diagnostic-quoting-literal")
 		}
 	}
+	// C2: object literals several of whose initialisers fail: the first diagnostic is that of the first one in source order
+	failing := []func() *model.N{
+		func() *model.N { return model.Bin("/", model.Num(1), model.Num(0)) },
+		func() *model.N { return model.Un("-", model.Str("s")) },
+		func() *model.N { return model.Bin("<<", model.Num(1), model.Un("-", model.Num(1))) },
+		func() *model.N { return model.Un("~", model.Num(1.5)) },
+	}
+	for n := 2; n <= 4; n++ {
+		for _, perm := range permutations(n) {
+			for okFirst := 0; okFirst < 2; okFirst++ {
+				if !c.Mine() {
+					continue
+				}
+				var ks []string
+				var vs []*model.N
+				if okFirst == 1 {
+					ks, vs = append(ks, "kz"), append(vs, model.Num(7))
+				}
+				for i, p := range perm {
+					ks = append(ks, keys[i%len(keys)])
+					vs = append(vs, failing[p]())
+				}
+				prog := []*model.N{T("before"), model.Var("tbl", model.Obj(ks, vs)), T("after")}
+				judgeAllSchedules(c, prog, "failing-initialisers")
+				oneOutcome(c, model.Render(parenAll(prog)), "", "failing-initialisers")
+			}
+		}
+	}
 	// D: the object histories of C12 (depth <= 2)
 	ops := objOps(false)
 	for i := range ops {
